@@ -424,6 +424,7 @@ class Ctx:
             "coverage": self.cov, "assumptions": self.assumptions,
             "wall_s": round(time.time() - self.t0, 2), "violations": len(self.violations),
             "known_findings_hit": [h[0] for h in self.known_hits],
+            "violation_keys": [v[3] for v in self.violations],
         }
         if not ev["coverage"]["samples"]:
             ev["coverage"]["samples"] = ["(none)"]
